@@ -47,7 +47,8 @@ var sources = []string{"s", "stream", "t1", "input_stream", "fromage"}
 var trickyBodies = []string{"x", "LIMIT 5", "ORDER BY z", " WHERE ", "FROM t", "GROUP BY a HAVING b", "a AND b", "select", "with (", ")", "a,b", "=", "it is", "100%"}
 var scalarFns = []string{"upper", "lower", "abs", "round", "length"}
 var aggFns = []string{"SUM", "AVG", "COUNT", "MIN", "MAX"}
-var durations = []string{"5s", "10s", "1m", "500ms", "2h"}
+// durations as Go spells them: single unit, compound, fractional (the window and WITH parsers hand them to time.ParseDuration)
+var durations = []string{"5s", "10s", "1m", "500ms", "2h", "1m30s", "1h30m", "1.5s", "90s", "2h45m30s", "1.5m", "4.5s"}
 
 func pick(rng *rand.Rand, xs []string) string { return xs[rng.Intn(len(xs))] }
 
@@ -374,7 +375,8 @@ func genStmt(rng *rand.Rand) refStmt {
 			cparams = []string{strconv.FormatInt(int64(dur(d)), 10)}
 			tag("window-tumbling")
 		case k == 3:
-			d1, d2 := "10s", pick(rng, []string{"5s", "2s", "500ms"})
+			pr := [][2]string{{"10s", "5s"}, {"10s", "2s"}, {"10s", "500ms"}, {"1m30s", "30s"}, {"4.5s", "1.5s"}, {"1h30m", "1m30s"}, {"2.5m", "50s"}}[rng.Intn(7)]
+			d1, d2 := pr[0], pr[1]
 			items = append(items, gitem{[]srcTok{kwT("SlidingWindow"), opT("lparen"), strT('\'', d1), opT("comma"), strT('\'', d2), opT("rparen")}})
 			wtype, ctype = "SLIDINGWINDOW", "sliding"
 			wparams = []string{"string:" + d1, "string:" + d2}
@@ -489,17 +491,17 @@ func genStmt(rng *rand.Rand) refStmt {
 			unit = int64(map[string]time.Duration{"ss": time.Second, "ms": time.Millisecond}[u])
 		}
 		if rng.Intn(2) == 0 {
-			d := pick(rng, []string{"2s", "500ms"})
+			d := pick(rng, []string{"2s", "500ms", "1m30s", "1.5s"})
 			opts = append(opts, opt{"MAXOUTOFORDERNESS", d})
 			ooo = int64(dur(d))
 		}
 		if rng.Intn(3) == 0 {
-			d := pick(rng, []string{"1s", "3s"})
+			d := pick(rng, []string{"1s", "3s", "1m30s", "2.5s"})
 			opts = append(opts, opt{"ALLOWEDLATENESS", d})
 			late = int64(dur(d))
 		}
 		if rng.Intn(3) == 0 {
-			d := pick(rng, []string{"5s", "1m"})
+			d := pick(rng, []string{"5s", "1m", "1m30s", "1h30m"})
 			opts = append(opts, opt{"IDLETIMEOUT", d})
 			idle = int64(dur(d))
 		}
@@ -518,6 +520,14 @@ func genStmt(rng *rand.Rand) refStmt {
 	}
 	if hvAfterWith {
 		add(hvToks...)
+	}
+	// STATETTL of the keyed counting / global windows
+	statettl := int64(0)
+	if (wtype == "COUNTINGWINDOW" || wtype == "GLOBALWINDOW") && !hvAfterWith && rng.Intn(2) == 0 {
+		d := pick(rng, []string{"24h", "90s", "1m2s", "1h30m", "1.5s"})
+		add(kwT("WITH"), opT("lparen"), kwT("STATETTL"), opT("eq1"), strT('\'', d), opT("rparen"))
+		statettl = int64(dur(d))
+		tag("with-statettl")
 	}
 	exp("with", hx(ts), itoa(unit), itoa(ooo), itoa(late), itoa(idle))
 
@@ -588,6 +598,7 @@ func genStmt(rng *rand.Rand) refStmt {
 		tc = "EventTime"
 	}
 	exp("c-with", hx(ts), itoa(unit), itoa(ooo), itoa(late), itoa(idle), tc)
+	exp("c-statettl", itoa(statettl))
 	exp(append([]string{"c-orderby"}, ob[1:]...)...)
 	exp("c-trigger", hx(trigger))
 	if aggregate {
@@ -600,7 +611,7 @@ func genStmt(rng *rand.Rand) refStmt {
 
 var predictedKeys = []string{"err", "distinct", "field", "source", "salias", "join", "where", "groupby", "window", "trigger", "having", "with", "orderby", "limit",
 	"mr", "mr-partition", "mr-orderby", "mr-measure", "mr-rows", "mr-pattern", "mr-within", "mr-define",
-	"c-distinct", "c-limit", "c-cond", "c-groupfields", "c-needwindow", "c-window", "c-with", "c-orderby", "c-trigger", "c-mode"}
+	"c-distinct", "c-limit", "c-cond", "c-groupfields", "c-needwindow", "c-window", "c-with", "c-statettl", "c-orderby", "c-trigger", "c-mode"}
 
 // ---------------------------------------------------------------- layouts
 
@@ -861,6 +872,7 @@ func parseObs(sql string) (out [][]string) {
 	wc := cfg.WindowConfig
 	out = append(out, []string{"c-with", hx(wc.TsProp), itoa(int64(wc.TimeUnit)), itoa(int64(wc.MaxOutOfOrderness)),
 		itoa(int64(wc.AllowedLateness)), itoa(int64(wc.IdleTimeout)), string(wc.TimeCharacteristic)})
+	out = append(out, []string{"c-statettl", itoa(int64(wc.CountStateTTL))})
 	co := []string{"c-orderby"}
 	for _, o := range cfg.OrderBy {
 		co = append(co, hx(o.Expression)+":"+string(o.Direction))
